@@ -864,8 +864,15 @@ class Parser(object):
                 body.append(nodes.Output(data_buffer[:], lineno=lineno))
                 del data_buffer[:]
 
-        def autoindent(rv, token):
-            prefix = token.value[:-3]
+        def marker_start(token, starts):
+            # the auto-indent marker is '<start>*' for one of the environment's own start strings (longest first)
+            for start in sorted((s for s in starts if s), key=len, reverse=True):
+                if token.value and token.value.endswith(start + '*'):
+                    return start
+            return None
+
+        def autoindent(rv, token, start):
+            prefix = token.value[:-(len(start) + 1)]
             if isinstance(rv, list):
                 node = nodes.FilterBlock(lineno=token.lineno)
                 node.filter = nodes.Filter(None, 'lineprefix', [nodes.Const(prefix)], [], None, None, lineno=token.lineno)
@@ -886,8 +893,9 @@ class Parser(object):
                     next(self.stream)
                     rv = self.parse_tuple(with_condexpr=True)
                     # auto-indented multi-line variable using {{* ... }}
-                    if token.value and token.value.endswith('*'):
-                        rv = autoindent(rv, token)
+                    start = marker_start(token, (self.environment.variable_start_string,))
+                    if start is not None:
+                        rv = autoindent(rv, token, start)
                     add_data(rv)
                     self.stream.expect('variable_end')
                 elif token.type == 'block_begin':
@@ -898,8 +906,10 @@ class Parser(object):
                         return body
                     rv = self.parse_statement()
                     # auto-indented block using {%* ... %}
-                    if token.value and token.value.endswith('*'):
-                        body.append(autoindent(rv if isinstance(rv, list) else [rv], token))
+                    start = marker_start(token, (self.environment.block_start_string,
+                                                 self.environment.line_statement_prefix))
+                    if start is not None:
+                        body.append(autoindent(rv if isinstance(rv, list) else [rv], token, start))
                     elif isinstance(rv, list):
                         body.extend(rv)
                     else:
